@@ -29,6 +29,9 @@ PIECES = ['"', "&", "<", ">", "'", "\t", "\n", "\r", "\r\n", "\x7f", " ", "\u008
 SEMANTIC = {".capella", ".capellafragment", ".melodyfragment", ".melodymodeller"}
 
 
+XSI_TYPE = "{http://www.w3.org/2001/XMLSchema-instance}type"
+
+
 def legal_string(r: random.Random, neutral: frozenset = frozenset()) -> str:
     mode = r.random()
     if mode < 0.12:
@@ -331,8 +334,10 @@ def do_op(model, r: random.Random, neutral, created: list, log: list):
         for attr in ("functions", "activities", "components", "constraints", "classes", "property_values", "scenarios"):
             lst = getattr(o.parent, attr, None)
             if lst is not None and o in lst:
+                ids = [e.get("id") for e in o._element.iter() if isinstance(e.tag, str) and e.get("id")]
                 lst.remove(o)
                 created[:] = [c for c in created if c is not o]
+                log[-1] = ("delete", ids[0] if ids else None, ids[1:41])
                 return
     elif op == "move":
         a, b = pick(model, r, *FUNC), pick(model, r, *FUNC)
@@ -639,6 +644,38 @@ def run_history(spec, seed: int, neutral: frozenset, skip_ops: frozenset, *, tie
                     if d:
                         out.problems.append(f"{f.name} [{label}]: " + "; ".join(short(x, 700) for x in d[:2]))
                         break
+            # queries answer the same: "all objects of class X" for every class that occurs (the local names of all xsi:type
+            # values in the in-memory trees, read by a raw scan), and the lookup by id of everything a deletion removed
+            cls_names = sorted({(e.get(XSI_TYPE) or "").rpartition(":")[2] for t in primary.values() for e in t.root.iter()
+                                if isinstance(e.tag, str) and e.get(XSI_TYPE)} | set(FUNC) | set(COMP) | {"Constraint", "Class", "Property"})
+            asked = 0
+            for cn in cls_names:
+                def census(m_, cn=cn):
+                    try:
+                        return sorted(o._element.get("id") or "" for o in m_.search(cn))
+                    except Exception as e:  # noqa: BLE001
+                        return f"{type(e).__name__}"
+                a, b = census(model), census(m2)
+                asked += 1
+                if a != b:
+                    if isinstance(a, str) or isinstance(b, str):
+                        out.problems.append(f"search({cn!r}): in memory {short(str(a), 80)}, after reload {short(str(b), 80)}")
+                    else:
+                        out.problems.append(f"search({cn!r}): {len(a)} objects in memory, {len(b)} after reload; only in memory "
+                                            f"{sorted(set(a) - set(b))[:4]}, only after reload {sorted(set(b) - set(a))[:4]}")
+                    break
+            out.extremes["classes_queried"] = max(out.extremes.get("classes_queried", 0), asked)
+            for entry_ in out.ops:
+                if isinstance(entry_, tuple) and entry_[0] == "delete":
+                    for uid in [entry_[1], *entry_[2]]:
+                        def found(m_, uid=uid):
+                            try:
+                                return m_.by_uuid(uid)._element.get("id") == uid
+                            except KeyError:
+                                return "KeyError"
+                        if uid and found(model) != found(m2):
+                            out.problems.append(f"by_uuid({uid!r}) after its deletion: in memory {found(model)}, after reload {found(m2)}")
+                            break
             # queries answer the same: the objects touched in this history
             for entry_ in out.ops:
                 if isinstance(entry_, tuple) and entry_[0] in ("set_name", "set_desc", "set_summary"):
